@@ -180,7 +180,9 @@ E(id, src, ok) == [id |-> id, src |-> src, ok |-> ok, scheme |-> ""]
 InjSeqs(n) == {s \in UNION {[1..l -> 1..n] : l \in 0..n} : \A i, j \in 1..Len(s) : i # j => s[i] # s[j]}
 ShareSeqs(n) == {[i \in 1..Len(s) |-> E(s[i], s[i], TRUE)] : s \in InjSeqs(n)}
                 \cup {<<E(1, 1, TRUE), E(1, 1, TRUE)>>, <<E(1, 1, TRUE), E(0, 2, TRUE)>>, <<E(1, 1, TRUE), E(2, 2, FALSE)>>,
-                      <<E(1, 1, TRUE), E(2, 2, TRUE), E(1, 1, TRUE)>>}
+                      <<E(1, 1, TRUE), E(2, 2, TRUE), E(1, 1, TRUE)>>,
+                      \* a blank container (identifier 0, all-zero payload) next to enough honest shares
+                      <<E(1, 1, TRUE), E(2, 2, TRUE), E(0, 2, FALSE)>>, <<E(0, 1, FALSE), E(1, 1, TRUE), E(2, 2, TRUE)>>}
 
 ADecryptShares(es, route) ==     \* route = "direct" (decrypt_with_shares) | "key" (from_shares then decrypt)
   /\ phase = "dealt"
